@@ -407,7 +407,15 @@ fn edit(rng: &mut Rng, f: &mut Facts, flags: &mut Flags, kind: &str) -> bool {
                 return false;
             }
             let i = rng.below(f.recs[k].len() as u64) as usize;
-            let new = format!("{}x", f.recs[k][i].1);
+            // a new tail, or a difference in white space / letter case only
+            let old = f.recs[k][i].1.clone();
+            let new = match rng.below(6) {
+                0 => format!("{old} "),
+                1 => format!(" {old}"),
+                2 if old.to_uppercase() != old => old.to_uppercase(),
+                3 if !old.is_empty() => String::new(),
+                _ => format!("{old}x"),
+            };
             f.recs[k][i].1 = new;
             true
         }
@@ -522,7 +530,9 @@ fn c18_long(rng: &mut Rng, lists: bool) -> Case {
         }
         c.op("connect".to_string());
         for (k, kind) in KINDS.iter().enumerate() {
-            let rname = if !lists && k == 0 { if slot == 0 { long_a.clone() } else { long_b.clone() } } else { format!("rec {kind}") };
+            // (k == 0: a gene; diseases carry a u32 length and are never cut: their long names differ
+            // between the two ontologies as well and survive the round trip in full)
+            let rname = if !lists { if slot == 0 { long_a.clone() } else { long_b.clone() } } else { format!("rec {kind}") };
             // the record's direct terms: all but a few; the second ontology differs at the TAIL
             // (largest ids) or the head of the list
             let cut = if lists { rng.range(1, 10) as usize } else { 1 };
@@ -554,6 +564,16 @@ fn c18_long(rng: &mut Rng, lists: bool) -> Case {
 }
 
 pub fn c18(rng: &mut Rng, _tier: &str, idx: usize) -> Case {
+    if idx == 5 {
+        // ontologies of 70 000 terms: compared with the reloaded one (no difference) and with a second
+        // big ontology (one term renamed, one removed, one added); implementation against the
+        // harness oracle only
+        let mut c = Case::new("big-ontologies");
+        c.op(format!("bigarena 70000 {}", rng.next()));
+        c.stat("big_comparisons", 2);
+        c.nontrivial = true;
+        return c;
+    }
     if idx % 25 == 12 {
         return c18_termless(rng);
     }
